@@ -208,3 +208,13 @@ pub fn read_lines(path: &str) -> Vec<Value> {
 		.map(|l| serde_json::from_str(l).unwrap_or_else(|e| panic!("json in {path}: {e}")))
 		.collect()
 }
+
+/// PeriodType::MAX as the generators see it: YV_PMAX overrides it so that builds with a wider PeriodType can be
+/// driven with exactly the programs of the default build (C20) or with larger lengths.
+pub fn maxp() -> u64 {
+	std::env::var("YV_PMAX").ok().and_then(|v| v.parse().ok()).unwrap_or(yata::core::PeriodType::MAX as u64)
+}
+/// YV_SAFE_ONLY=1: generators leave out calls on which the default (safe) build panics (C19's antecedent)
+pub fn safe_only() -> bool {
+	std::env::var("YV_SAFE_ONLY").map_or(false, |v| v == "1")
+}
